@@ -246,7 +246,24 @@ func execEnc(s spec, st *stats) *fail {
 	var modified *fail
 	res := vsched.Run(vsched.Options{Strategy: vsched.BackgroundFirst{}, MaxSteps: maxSteps}, func() {
 		enc := flexfec.NewFlexEncoder03(fecPT, fecSSRC)
+		// another stream's encoder lives in the same process: it starts with the configuration of the first
+		// batch and switches to a different one before every later batch. Encoders share nothing.
+		other := flexfec.NewFlexEncoder03(fecPT+1, fecSSRC+1)
+		otherSeq := uint16(500)
+		bystander := func(k, n int) {
+			ps := make([]rtp.Packet, k)
+			for j := range ps {
+				ps[j] = rtp.Packet{Header: rtp.Header{Version: 2, PayloadType: 96, SSRC: mediaSSRC + 7, SequenceNumber: otherSeq, Timestamp: uint32(otherSeq)}, Payload: []byte{byte(j), 9}}
+				otherSeq++
+			}
+			_ = other.EncodeFec(ps, uint32(n))
+		}
 		for i, b := range bs {
+			if i == 0 {
+				bystander(b.k, b.n)
+			} else {
+				bystander(b.k%7+2, b.n%2+1)
+			}
 			fec := enc.EncodeFec(rtps[i], uint32(b.n))
 			isNil[i] = fec == nil
 			for _, f := range fec {
